@@ -394,10 +394,10 @@ fn callee_json<'tcx>(
     }
 }
 
-fn body_json<'tcx>(cx: &mut Ctx<'tcx>, did: LocalDefId, body: &mir::Body<'tcx>) -> String {
+fn body_json<'tcx>(cx: &mut Ctx<'tcx>, did: LocalDefId, body: &mir::Body<'tcx>, name: &str) -> String {
     let tcx = cx.tcx;
     let mut out = String::new();
-    let _ = write!(out, "{{\"fn\":{},\"argc\":{},", js(&cx.path(did.to_def_id())), body.arg_count);
+    let _ = write!(out, "{{\"fn\":{},\"argc\":{},", js(name), body.arg_count);
     // locals
     let locals: Vec<String> = body.local_decls.iter().map(|d| js(&cx.ty(d.ty))).collect();
     let _ = write!(out, "\"locals\":{},", jlist(&locals));
@@ -935,7 +935,14 @@ impl Callbacks for Cb {
             fns.push(rec);
             // MIR
             let body = tcx.optimized_mir(did);
-            bodies.push(body_json(&mut cx, ldid, body));
+            let nm = cx.path(did);
+            bodies.push(body_json(&mut cx, ldid, body, &nm));
+            // promoted constants (e.g. `&Ordering::Less`) as pseudo-bodies `<fn>::promoted[N]`
+            let proms = tcx.promoted_mir(did);
+            for (pi, pb) in proms.iter_enumerated() {
+                let pn = format!("{}::promoted[{}]", nm, pi.as_usize());
+                bodies.push(body_json(&mut cx, ldid, pb, &pn));
+            }
         }
 
         // ADTs, impls, traits, unsafe items
